@@ -342,6 +342,12 @@ func (s *sim) applyBodyOp(op *OpM, tb *hclwrite.Body, mb *mBody) {
 			// "an expression created by NewExpressionRaw will produce an empty
 			// result for calls to its method Variables" (until it is re-loaded)
 			func(a *mAttr) { a.kind, a.exprTok, a.nvars = expTokens, exp, 0 })
+		// the caller owns its slice and reuses it ("we copy the tokens here in
+		// order to make sure that later mutations by the caller don't
+		// inadvertently cause our expression to become invalid")
+		for i := range toks {
+			toks[i] = &hclwrite.Token{Type: hclsyntax.TokenIdent, Bytes: []byte("callers_reused_slot")}
+		}
 	case "rename":
 		var ok bool
 		s.call("RenameAttribute", func() { ok = tb.RenameAttribute(op.Name, op.Name2) })
